@@ -58,3 +58,113 @@ PROPS["C02"] = {
         "operands are placed through NewScalarFromCanonicalBytes / raw limbs and read back through Bytes()",
     ],
 }
+
+PROPS["C03"] = {
+    "title": "point addition/doubling/negation implement the secp256k1 group law completely",
+    "level": "model_checking",
+    "level_text": "The Renes-Costello-Batina formulas as transcribed from point_projective.go (Projective.tla) are model-checked by TLC on "
+                  "miniature secp256k1-shaped curves for ALL pairs of projective representatives of ALL points (identity representatives "
+                  "included), which makes 'valid representative of the right abstract point' an inductive invariant of every operation "
+                  "sequence; the real code is bound to the same specification by trace validation at full size: Add/Subtract/Double/Negate/"
+                  "conditional ops/Equal/IsIdentity/IsYOdd/encoders are driven on hand-built representatives (z in {1,2,p-1,random}, identity "
+                  "as (0,Y,0)), every exceptional relation and alias pattern, and on random operation chains whose abstract state is carried "
+                  "by the specification.",
+    "level_note": "trusted: TLC, BigInt/EcAdd overrides (self-tested against the TLA+ definitions), verif accessors reading raw coordinates; "
+                  "full-size behaviour is sampled with an exact oracle",
+    "exhaustive": [
+        {"spec": "MC_Projective", "params": "mini43", "env": {"VERIF_MCFULL": "0"}, "tiers": ("quick",)},
+        {"spec": "MC_Projective", "params": "mini43", "env": {"VERIF_MCFULL": "1"}, "tiers": ("thorough",)},
+        {"spec": "MC_Projective", "params": "mini79", "env": {"VERIF_MCFULL": "0"}, "tiers": ("thorough",)},
+    ],
+    "drivers": [
+        {"driver": "point", "trace": "Trace_Point"},
+    ],
+    "require_classes": {"quick": ["add_inf_inf", "add_inf_p", "add_p_inf", "add_p_p", "add_p_negp", "add_generic", "add_inf_altrep",
+                                  "z_not_one", "alias_recv", "alias_all", "mixed_p_p", "mixed_p_negp", "mixed_inf", "dbl_inf",
+                                  "equal_true_diffrep", "equal_neg", "equal_inf_inf", "equal_p_inf", "yodd", "yeven", "enc_inf",
+                                  "chain_step"]},
+    "assumptions": [
+        "full-size group operations are sampled (steered representatives and relations, exact TLA+ oracle); exhaustiveness is on miniature curves",
+        "raw projective coordinates are read through verif-tagged accessors added to a scratch copy of the tree",
+    ],
+}
+
+_MUL_A = [
+    {"spec": "MC_Mul", "params": "mini43", "env": {"VERIF_MCFULL": "0"}, "tiers": ("quick",)},
+    {"spec": "MC_Mul", "params": "mini43", "env": {"VERIF_MCFULL": "1"}, "tiers": ("thorough",)},
+    {"spec": "MC_Mul", "params": "mini79", "env": {"VERIF_MCFULL": "0"}, "tiers": ("thorough",), "timeout": 7200},
+]
+_MC_TEXT = ("The algorithm as coded (Mul.tla: split with round-by-carry, sign normalisation, fixed-window ladders over the low HBits, "
+            "multiples tables with implicit zero entry, nibble/byte fixed-base walks, Straus) is model-checked by TLC against repeated addition "
+            "for ALL scalars and ALL points of miniature secp256k1-shaped curves whose GLV constants are derived the libsecp256k1 way; ")
+
+PROPS["C04"] = {
+    "title": "variable-base scalar multiplication returns s*P for every scalar and point",
+    "level": "model_checking",
+    "level_text": _MC_TEXT + "the real code is bound by trace validation at full size: the constants of the running binary, the lattice relations "
+                  "and the closed-form bound on both halves (< 2^128 for EVERY s; the same formula is validated exhaustively on the miniature curves) "
+                  "are evaluated by TLC, splitGLV / mulGFlooredDiv are checked on scalars steered to extreme halves, rounding-bit flips and limb "
+                  "carries, and ScalarMult / the variable-time twin / DoubleScalarMultBasepointVartime(0,s,P) / length-1 MultiScalarMult are checked "
+                  "against Group!PMul on those scalars x {identity (two representatives), G, random, other representatives, receiver = P}.",
+    "level_note": "trusted: TLC, BigInt/EcAdd/EcMul overrides (self-tested against the TLA+ definitions on every setup), verif accessors",
+    "exhaustive": _MUL_A,
+    "drivers": [{"driver": "mul", "trace": "Trace_Point"}],
+    "require_classes": {"quick": ["split_extreme", "split_neg1", "split_neg2", "split_round_flip", "split_limb_carry", "split_edge",
+                                  "mul_zero", "mul_inf", "mul_alias", "mul_edge_scalar", "mul_altrep", "glv_bound"]},
+    "assumptions": ["full-size multiplications are sampled on steered scalars with an exact oracle; the for-all-s bound is a closed form evaluated at full size "
+                    "and validated against exhaustive enumeration only on miniature curves"],
+}
+
+PROPS["C05"] = {
+    "title": "fixed-base multiplication and the embedded generator tables are exact",
+    "level": "model_checking",
+    "level_text": _MC_TEXT + "at full size ALL 32x255 entries of the embedded table are walked by a stateful trace specification that carries its own "
+                  "running multiple (entry j = entry j-1 + 256^i*G, each row closed by 256*base = next base), all 32x15 odd-table entries are checked "
+                  "against (16j)*256^i*G, and ScalarBaseMult / the variable-time twin are checked against Group!PMulG for ALL 32x255 single-byte scalars, "
+                  "zero nibbles/bytes in every position, two-byte combinations, edge and random scalars, plus PrivateKey -> PublicKey.",
+    "level_note": "trusted: TLC, BigInt/EcAdd/EcMul overrides (self-tested), verif accessors reading the deserialised tables",
+    "exhaustive": _MUL_A[:1] + [_MUL_A[1]],
+    "drivers": [{"driver": "basemul", "trace": "Trace_Point"}],
+    "require_classes": {"quick": ["tbl_huge", "tbl_odd", "tbl_row", "bm_single_byte", "bm_zero_nibble", "bm_edge", "bm_priv"]},
+    "assumptions": ["table entries are exhaustively checked (finite set); multiplications on multi-byte scalars are sampled"],
+    "min_counts": {"tbl_huge": 8160, "tbl_odd": 480, "tbl_row": 32, "bm_single_byte": 16320},
+}
+
+PROPS["C06"] = {
+    "title": "SEC 1 point decoding is strict and encoding is a bijection on curve points",
+    "level": "model_checking",
+    "level_text": "Sec1.tla states declaratively which byte strings encode which point; TLC checks on miniature curves with one-byte coordinates "
+                  "(n < p < 2^8 < 2n, so non-canonical coordinates exist as on the real curve) for EVERY byte string of length 0..2W+1 that the decoder "
+                  "accepts exactly the image of the encoders, that decode/encode are mutually inverse and one-to-one per format, that the step-by-step "
+                  "algorithm of point_s11n.go refines it and writes its receiver only on success, and RecoverPoint for all (x mod n, id in 0..255). "
+                  "The real decoders/constructors are bound by trace validation at full size on every class of input (all lengths 0..66, all 256 prefixes, "
+                  "+p aliases of small coordinates, non-residues, wrong-sign / off-by-one y, hybrid prefixes, identity byte in each decoder, x in [n,p) "
+                  "recovery) with receiver state logged before/after on initialised and zero-value receivers.",
+    "level_note": "trusted: TLC, BigInt overrides (self-tested), the harness' logging",
+    "exhaustive": [
+        {"spec": "MC_Sec1", "params": "mini211", "env": {"VERIF_MCFULL": "0"}, "tiers": ("quick",)},
+        {"spec": "MC_Sec1", "params": "mini211", "env": {"VERIF_MCFULL": "1"}, "tiers": ("thorough",)},
+        {"spec": "MC_Sec1", "params": "mini163", "env": {"VERIF_MCFULL": "1"}, "tiers": ("thorough",)},
+    ],
+    "drivers": [{"driver": "sec1", "trace": "Trace_Point"}],
+    "require_classes": {"quick": ["dec_ok_cmp", "dec_ok_unc", "dec_ok_inf", "dec_bad_len", "dec_bad_prefix", "dec_noncanon_x", "dec_noncanon_y",
+                                  "dec_offcurve", "dec_nonresidue", "dec_hybrid", "dec_recv_uninit", "dec_recv_kept", "coords_ok", "coords_bad",
+                                  "rec_ok_low", "rec_ok_high", "rec_overflow", "rec_bad_id", "rec_nonresidue"]},
+    "assumptions": ["full-size byte strings are sampled per class (exact oracle); all byte strings are enumerated only on the miniature curves"],
+}
+
+PROPS["C16"] = {
+    "title": "multi-scalar and double-scalar multiplication return the exact combination",
+    "level": "model_checking",
+    "level_text": _MC_TEXT + "including Straus over lists with repeated, mutually inverse and identity points and partial sums through the identity, and the "
+                  "double-scalar multiply for all (u2, P) x edge u1; the real MultiScalarMult / MultiScalarMultVartime / DoubleScalarMultBasepointVartime "
+                  "are bound by trace validation at full size over list shapes (length 0..6, 7..33, 64+ in thorough), scalar classes {0,1,n-1,-s_j,s_j,random}, "
+                  "point classes {identity (two representatives), G, P_j in another representative, -P_j, random}, receiver aliasing an entry, cancelling "
+                  "combinations and mismatched lengths (must panic with the receiver untouched); inputs must be unchanged afterwards.",
+    "level_note": "trusted: TLC, BigInt/EcAdd/EcMul overrides (self-tested), verif accessors",
+    "exhaustive": _MUL_A,
+    "drivers": [{"driver": "msm", "trace": "Trace_Point"}],
+    "require_classes": {"quick": ["msm_len0", "msm_len1", "msm_len2", "msm_len3plus", "msm_long", "msm_zero_scalar", "msm_inf_point", "msm_dup",
+                                  "msm_inverse", "msm_alias", "msm_mismatch", "msm_cancel", "dsm", "mul_alias"]},
+    "assumptions": ["full-size list shapes and operand classes are sampled with an exact oracle; exhaustiveness is on the miniature curve"],
+}
